@@ -46,7 +46,8 @@ def run(ch, ctx):
     world = None
     compression = bool(ch.pick('c17.compression', 2))
     hand_number = ch.pick('c17.hand', 1000)
-    cut = ch.pick('c17.cut', 30)
+    cut_anywhere = ch.chance('c17.cut_anywhere', 1, 2)      # the hand is also cut where the dealer, a showdown or a
+    cut = ch.pick('c17.cut', 60 if cut_anywhere else 30)    # chip-mechanical step is due, not only where a player is to act
     partial = None
     try:
         world = World(ch, ctx, cfg, [], run_key=run_key_of(ch), runout_prefs=(None, 1), muck_num=0, partial_show=False,
@@ -57,11 +58,13 @@ def run(ch, ctx):
         while st.status:
             if world.ticks > world.tick_cap:
                 raise Stuck('tick cap exceeded')
-            if st.actor_index is not None:
+            if st.actor_index is not None or (cut_anywhere and st.street_index is not None
+                                              and not any(st.hole_dealing_statuses)):     # (everybody holds his hole cards)
                 if k == cut and partial is None:
                     partial = (HandHistory.from_game_state(world.game, st, compression, hand=hand_number),
                                list(st.operations))
                     ctx.fault('crash_prefix')
+                    ctx.count('prefix_cut_while_dealer_or_showdown_due', st.actor_index is None)
                 k += 1
             if world.step() is None:
                 raise Stuck('no operation available while the hand is not over')
@@ -86,6 +89,22 @@ def lines_of(hh, pos, what):
     except Exception as e:      # noqa: BLE001
         raise Violation('C17.acpc_exc', f'{what}: to_acpc_protocol({pos}) raised {type(e).__name__}: {e}; actions {hh.actions}',
                         rule='acpc_exc', exc=type(e).__name__)
+
+
+def last_is_earlier_view(a, b):
+    """Message a is what message b looked like earlier: same direction, seat, hand and betting string; every seat's
+    hole cards equal or not yet visible; the board a prefix of b's board."""
+    if a[0] != b[0] or a[0] != 'S->':
+        return False
+    fa, fb = a[1].strip().split(':'), b[1].strip().split(':')
+    if len(fa) != 5 or len(fb) != 5 or fa[:4] != fb[:4]:
+        return False
+    ca, cb = fa[4].split('/'), fb[4].split('/')
+    ha, hb = ca[0].split('|'), cb[0].split('|')
+    if len(ha) != len(hb) or any(x and x != y for x, y in zip(ha, hb)):
+        return False
+    ba, bb = ca[1:], cb[1:]
+    return len(ba) <= len(bb) and all(x == y or (i == len(ba) - 1 and y.startswith(x)) for i, (x, y) in enumerate(zip(ba, bb)))
 
 
 def check(world, cfg, compression, hand_number, partial, ctx, ch=None):
@@ -120,6 +139,10 @@ def check(world, cfg, compression, hand_number, partial, ctx, ch=None):
         phh, pops = partial
         for pos in range(n):
             got = lines_of(phh, pos, 'prefix of the hand')
+            if got and got != full[pos][:len(got)] and got[:-1] == full[pos][:len(got) - 1] and len(full[pos]) >= len(got) \
+                    and last_is_earlier_view(got[-1], full[pos][len(got) - 1]):
+                ctx.count('prefix_dialogues_compared')
+                continue        # cut during a showdown or a run-out: the last message shows fewer cards than the final one will
             if got != full[pos][:len(got)]:
                 i = next((j for j, (a, b) in enumerate(zip(got, full[pos])) if a != b), min(len(got), len(full[pos])))
                 raise Violation('C17.crash_prefix', f'seat {pos}: the dialogue of the first {len(pops)} operations is not a '
